@@ -106,8 +106,9 @@ Definition hist_named_ok (c : pv_cfg) (bv m : N) : bool :=
       match hdr_of c d, size_of c d with Some h', Some sz' => (h' =? h) && (sz' =? sz) | _, _ => false end
     | _ => false
     end &&
-    (* the caller may also name the format to the reader: it is believed *)
-    match read_sized c bv h sz m with Some (Some (r', d, ld)) => (r' =? m) && (d =? m) && (ld =? lw) | _ => false end
+    (* the caller may also name the format to the reader: it is believed - also by the reader of an EMPTY lump *)
+    match read_sized c bv h sz m with Some (Some (r', d, ld)) => (r' =? m) && (d =? m) && (ld =? lw) | _ => false end &&
+    match read_empty c bv h m with Some (Some r') => r' =? m | _ => false end
     | _ => false
     end
   | _, _ => false
